@@ -104,6 +104,10 @@ theorem locate_covers (content : Text) (p q : PkgInfo) (h : locateBytes content 
     q.version = p.version ∧ q.name = p.name ∧ q.line = p.line ∧ q.endOffset = q.startOffset + byteLen (rangeText p) ∧
     q.commitHash = p.commitHash ∧ q.extra = p.extra := by
   unfold locateBytes at h
+  cases hone : Pos.onOneLine content p.column p.startOffset p.endOffset with
+  | false => simp [hone] at h
+  | true =>
+  simp only [hone, Bool.not_true, Bool.false_eq_true, if_false] at h
   cases hs : slice content p.startOffset p.endOffset with
   | none => simp [hs] at h
   | some token =>
@@ -125,6 +129,14 @@ theorem locate_covers (content : Text) (p q : PkgInfo) (h : locateBytes content 
       · show p.startOffset ≤ p.startOffset + k; omega
       · show p.startOffset + k + byteLen (rangeText p) ≤ p.endOffset; omega
       · show p.column + k - p.column = p.startOffset + k - p.startOffset; omega
+
+/-- a value written over several lines is never located: no code action, and no diagnostic (`Server.wire` drops it) -/
+theorem locate_one_line (content : Text) (p q : PkgInfo) (h : locateBytes content p = some q) :
+    Pos.onOneLine content p.column p.startOffset p.endOffset = true := by
+  unfold locateBytes at h
+  cases hone : Pos.onOneLine content p.column p.startOffset p.endOffset with
+  | false => simp [hone] at h
+  | true => rfl
 
 theorem rangeText_version (p : PkgInfo) (hh : p.commitHash = none) : rangeText p = p.version := by simp [rangeText, hh]
 
